@@ -238,7 +238,7 @@ type Build struct {
 	How     int
 	Variant int // directive spelling variant
 	Costs   []CostEntry
-	Events  int // 0 none, 1 ReportEvent, 2 Debug, 3 both
+	Events  int // 0 none, 1 ReportEvent, 2 Debug, 3 both; -1 / -2 / -3 none, with both / the ReportEvent / the Debug key present and false
 	Infix   bool
 	Pure    bool // register lock-free, non-logging custom operators (for programs shared between goroutines)
 }
@@ -386,6 +386,13 @@ func NewConfig(u *Universe, log *Log, b Build) (*eval.Config, string) {
 	case 3: // both (a config may well say so)
 		eval.EnableReportEvent(cc)
 		eval.EnableDebug(cc)
+	case -1: // said explicitly: no events (the keys are present, their values false)
+		cc.CompileOptions[eval.ReportEvent] = false
+		cc.CompileOptions[eval.Debug] = false
+	case -2:
+		cc.CompileOptions[eval.ReportEvent] = false
+	case -3:
+		cc.CompileOptions[eval.Debug] = false
 	}
 	if b.Infix {
 		eval.EnableInfixNotation(cc)
